@@ -132,6 +132,7 @@ static void tr(const char *fmt, ...)
  * All other mutexes (xmalloc, per-object cbuf/hostlist locks) are uncontended under the token. */
 static void *addr_tc, *addr_thd, *addr_cond;
 static int *addr_tcvar;   /* dsh.c's threadcount, read at unlock events (observed, never written) */
+static int uyield;
 static int is_static(void *p) { return p == addr_tc || p == addr_thd || p == addr_cond; }
 
 static int mtx_id(void *m)
@@ -440,7 +441,15 @@ int __wrap_pthread_mutex_lock(pthread_mutex_t *m)
 }
 int __wrap_pthread_mutex_unlock(pthread_mutex_t *m)
 {
-    if (self < 0 || !is_static(m)) return __real_pthread_mutex_unlock(m);
+    if (self < 0) return __real_pthread_mutex_unlock(m);
+    if (!is_static(m)) {
+        /* SCHED_UYIELD: the release of a library lock is a preemption point too (the code right after
+         * cbuf_read/hostlist calls then interleaves with other threads); off by default so that recorded
+         * schedules keep their meaning */
+        int rc = __real_pthread_mutex_unlock(m);
+        if (uyield && nthr > 3) { yield_op(OP_NOP); yield_end(); }
+        return rc;
+    }
     __real_pthread_mutex_lock(&G);
     T[self].mid = mtx_id(m);
     __real_pthread_mutex_unlock(&G);
@@ -695,6 +704,7 @@ int main(int argc, char **argv)
     if ((s = getenv("SCHED_PSPUR"))) pspur = atoi(s);
     if ((s = getenv("SCHED_PTICK"))) ptick = atoi(s);
     if ((s = getenv("SCHED_MAXSTEP"))) max_steps = atol(s);
+    if ((s = getenv("SCHED_UYIELD"))) uyield = atoi(s);
     if ((s = getenv("SCHED_PB"))) {
         char *dup = strdup(s), *save = NULL;
         pb_mode = 1;
